@@ -1,9 +1,19 @@
 // Package props wires the generic rule engines to the twenty properties.
 package props
 
+import "go/ast"
+
 import "verif/checker/core"
 
 // Registry maps a property id to its check.
 var Registry = map[string]func(*core.Check){}
 
 func register(id string, f func(*core.Check)) { Registry[id] = f }
+
+// recvNameOf returns the name of the method receiver (def when the function has none or it is unnamed).
+func recvNameOf(fd *ast.FuncDecl, def string) string {
+	if fd != nil && fd.Recv != nil && len(fd.Recv.List) == 1 && len(fd.Recv.List[0].Names) == 1 {
+		return fd.Recv.List[0].Names[0].Name
+	}
+	return def
+}
